@@ -31,3 +31,7 @@ chk("C04","fault_enumeration",
  "Same operations as C03, with power-loss images at every event boundary: durable state (fsync coverage tracked per file and per directory) plus admissible parts of the volatile writes (none, all, all-but/only one file class, random prefix/subset choices), incl. power loss during the recovery open; judged against pre/post.",
  "Fault class limited to the one the statement admits (lost subsets of unsynced in-place page writes, page-aligned prefixes of unsynced appends, prefix of directory operations). fsync coverage rule: an fsync makes durable the writes completed before it started.",
  "fault injection by enumeration of power-loss images over generated histories (proptest + I/O hook + shadow FS durability model), model-based oracle","DESIGN.md §3 C04")
+chk("C14","fault_enumeration",
+ "For generated histories the last commit/rollback is run once to count its mutating file operations and then re-run from a copy of the pre-operation directory with the k-th operation failing (once / persistently, EIO / ENOSPC) for every k (strided above the point budget): the call must return Err (not Ok, not panic, not hang), poison the handle, refuse a changeset prepared earlier, drop cleanly, and the directory must reopen to exactly pre or post.",
+ "Faults are injected through the hook before the operation is issued (nothing is written). Fault points are enumerated per generated operation. Hang = no return within 90 s of an operation that normally takes milliseconds. Bucket exhaustion is exercised by a separate generator family (tiny hash tables).",
+ "fault injection by enumeration of failing I/O operations over generated histories (proptest + I/O hook), model-based oracle","DESIGN.md §3 C14")
